@@ -211,6 +211,25 @@ def big_signal_sets(tier):
     return out
 
 
+def int_formulas():
+    I = ((0, 1), (1, 2))
+    fs = [f for f in F.F(1, F.unary_ops(I, ops=PAST_U), F.binary_ops(I, ops=PAST_B, unless=False), [(F.PX, F.PY, F.X)]) if F.size(f) >= 1]
+    return fs + [('pred', '>', ('+', F.X, F.Y), F.C1), ('pred', '==', F.X, F.Y), ('pred', '<=', ('/', F.X, F.C2), F.Y)]
+
+
+def int_signal_sets(nvars, tier):
+    """time-stamps and values are Python ints"""
+    tx, ty = (0, 1, 2, 4), (0, 2, 3)
+    out = []
+    for vx in itertools.product((-1, 2), repeat=len(tx)):
+        if nvars == 1:
+            out.append({'x': tuple(zip(tx, vx))})
+            continue
+        for vy in itertools.product((-1, 2), repeat=len(ty)):
+            out.append({'x': tuple(zip(tx, vx)), 'y': tuple(zip(ty, vy))})
+    return out[1::(24 if tier == 'quick' else 2)] if nvars == 2 else out[::(4 if tier == 'quick' else 1)]
+
+
 def formula_set(tier):
     quick = tier == 'quick'
     I = ((0, 1), (1, 2)) if quick else F.I_QUICK
@@ -260,6 +279,8 @@ def shards(tier):
     out += [{'formulas': [(F.to_json(f), False)], 'deep': True} for f in deep]
     out += [{'formulas': [(F.to_json(f), p)], 'long': True} for f, p in long_formulas()]
     out += [{'formulas': [(F.to_json(f), False)], 'big': True} for f in big_formulas()]
+    it = int_formulas()
+    out += [{'formulas': [(F.to_json(f), False) for f in it[i:i + 3]], 'ints': True} for i in range(0, len(it), 3)]
     return out
 
 
@@ -285,7 +306,7 @@ def run_shard(shard, tier, res):
         vs = sorted(F.fvars(f))
         text = 'out = ' + F.pr(f)
         res.formulas += 1
-        for sig in (long_signal_sets() if shard.get('long') else big_signal_sets(tier) if shard.get('big')
+        for sig in (long_signal_sets() if shard.get('long') else int_signal_sets(len(vs), tier) if shard.get('ints') else big_signal_sets(tier) if shard.get('big')
                     else deep_signal_sets(len(vs), tier) if shard.get('deep') else signal_sets(len(vs), tier)):
             sig = {v: sig['x' if (v == 'y' and len(vs) == 1) else v] for v in vs}
             if shard.get('long'):
